@@ -60,7 +60,9 @@ def strategy(tier: str, pid: str = "C14") -> st.SearchStrategy[Any]:
         st.tuples(st.just("done"), st.integers(0, 2), st.sampled_from([True, True, False]), st.booleans()).map(list),
         st.just(["settle"]),
     )
-    return st.fixed_dictionaries({"ngroups": st.integers(1, 3), "ops": st.lists(op, min_size=3, max_size=max_ops)})
+    return st.fixed_dictionaries({"ngroups": st.integers(1, 3), "ops": st.lists(op, min_size=3, max_size=max_ops),
+                                  # number of components in each of the three (disjoint) component groups
+                                  "sizes": st.lists(st.integers(1, 7), min_size=3, max_size=3)})
 
 
 def run_case(case: Any, pid: str) -> Verdict:
@@ -69,7 +71,11 @@ def run_case(case: Any, pid: str) -> Verdict:
     ngroups = case["ngroups"]
     trace: list[tuple[str, int, float]] = []
     gates: dict[int, list[Any]] = {}
-    gidx = {GROUPS[i]: i for i in range(3)}
+    sizes = case.get("sizes") or [len(g) for g in GROUPS]
+    groups = [frozenset(range(10 * i + 1, 10 * i + 1 + sizes[i])) for i in range(3)]
+    gidx = {groups[i]: i for i in range(3)}
+    if max(sizes[:ngroups]) >= 5:
+        v.labels.add("component_group_of_5_or_more")
     active: dict[int, int] = {}
 
     class Probe:
@@ -155,7 +161,7 @@ def run_case(case: Any, pid: str) -> Verdict:
                     g = op[1] % ngroups
                     counter += 1
                     n = float(counter)
-                    await sender.send(Request(power=Power.from_watts(n), component_ids=set(GROUPS[g])))
+                    await sender.send(Request(power=Power.from_watts(n), component_ids=set(groups[g])))
                     last_issued[g] = n
                     nxt = set()
                     for c in cands[g]:
